@@ -24,9 +24,17 @@ import (
 const (
 	verifRoot   = "/verif"
 	harnessRoot = "/verif/harness"
-	repoRoot    = "/repo"
 	modulePath  = "github.com/getlantern/zenodb"
 )
+
+// repoRoot is /repo; ZX_REPO redirects a run to another checkout (used only to try seeded
+// mutants in scratch worktrees without touching /repo; such runs never write evidence).
+var repoRoot = func() string {
+	if r := os.Getenv("ZX_REPO"); r != "" {
+		return r
+	}
+	return "/repo"
+}()
 
 type Harness struct {
 	Prop     string            `json:"prop"`
